@@ -66,12 +66,12 @@ reduction methods) end at the same core. -/
 def Statement_spellings_agree : Prop :=
   ∀ cls ∈ classes, (report Gen.dispatchTable cls).fullOk = true
 
-/-- **spellings_agree_partial.** Outside the two excluded regions — `ExcludedNep18` (a NumPy-style argument that the
-function reached by name rejects or binds to another parameter: region of finding F-nep18-signature; its extent on
-this tree is `Report.nep18Violations`, validated call by call against the real code by the check) and
-`ExcludedDropped` (a namespace wrapper that accepts `out` and does not pass it on: finding F-clip-out) — the
-statement holds for the whole generated table and all three array classes: same cores, same keyword maps after
-renaming, no other dropped parameter, accepted keywords mean the same, all ufunc/operator spellings agree. -/
+/-- **spellings_agree_partial.** Outside the excluded region `ExcludedNep18` (a NumPy-style argument that the function
+reached by name rejects or binds to another parameter: region of finding F-nep18-signature; its extent on this tree is
+`Report.nep18Violations`, validated call by call against the real code by the check) the statement holds for the whole
+generated table and all three array classes: same cores, same keyword maps after renaming, NO parameter silently dropped
+(the former exception, `out` of `sparse.clip`, was repaired in 7d0ce74), accepted keywords mean the same, all
+ufunc/operator spellings agree. -/
 theorem spellings_agree_partial :
     ∀ cls ∈ classes, (report Gen.dispatchTable cls).partialOk = true := by
   decide +kernel
@@ -106,6 +106,24 @@ theorem ufunc_route (outOk sig : Bool) (m : String) :
        else if m = "reduce" then .reduce else .notImplemented) := by
   unfold arrayUfunc
   cases outOk <;> cases sig <;> simp
+
+theorem outerWalk_fst (l : List (Nat × Nat)) (c : Nat) : (outerWalk l c).map (·.1) = l.map (·.1) := by
+  induction l generalizing c with
+  | nil => rfl
+  | cons h t ih => obtain ⟨i, nd⟩ := h; simp [outerWalk, ih]
+
+/-- **outer_operand_order.** `np.<ufunc>.outer(a, b, …)`: for any number of operands of any ranks, the `outer` branch of
+`__array_ufunc__` (whose last statement is read off the source: `Gen.outerFinalReverse`) hands the operands to the
+element-wise machinery in the CALLER's order — so a non-commutative ufunc computes `a[i] ∘ b[j]`, not `b[j] ∘ a[i]`. -/
+theorem outer_operand_order (ndims : List Nat) :
+    (outerPrepare ndims).map (·.1) = List.range ndims.length := by
+  have hflag : Gen.outerFinalReverse = true := rfl
+  unfold outerPrepare
+  simp only [hflag, if_true, List.map_reverse, outerWalk_fst, List.reverse_reverse]
+  exact List.map_fst_zip (by simp)
+
+/-- non-vacuity of `outer_operand_order`: a 2-d and a 1-d operand — the first gets one trailing axis, the second none -/
+example : outerPrepare [2, 1] = [(0, 1), (1, 0)] := by decide
 
 /-- non-vacuity: the tables are populated; `sparse.var`, `x.var` and `np.var(x)` end at the same core with
 `correction` renamed to `ddof`; the spellings of matmul meet at `_common.matmul`; an unimplemented NumPy function
